@@ -130,6 +130,9 @@ class ExoticSerDes(SerDes):
 SERDES = {None: None, "exotic": ExoticSerDes(), "json": JsonSerDes(), "utf8json": Utf8JsonSerDes(), "tagged": TaggedSerDes(), "ctxbound": ContextBoundSerDes()}
 
 
+_PROCESS_LOGGER = None
+
+
 class CapLogger:
     def __init__(self, rt):
         self.rt = rt
@@ -590,7 +593,12 @@ class Interp:
         prog = self.prog
         self.rt.rpc("fn_enter", path="", fnkind="handler", event=canon(event))
         if prog.get("logger"):
-            ctx.set_logger(CapLogger(self.rt))
+            # one logger object per process, as a module-level logger in a Lambda function (a warm sandbox hands the same object to
+            # every invocation)
+            global _PROCESS_LOGGER  # noqa: PLW0603
+            if _PROCESS_LOGGER is None or _PROCESS_LOGGER.rt is not self.rt:
+                _PROCESS_LOGGER = CapLogger(self.rt)
+            ctx.set_logger(_PROCESS_LOGGER)
         outs = self.run_body(ctx, prog["body"], "")
         ret = prog.get("ret")
         if ret is None:
